@@ -90,6 +90,7 @@ type interpreter struct {
 	goroutines         int32                  // atomically updated
 
 	// gosym additions
+	timers     map[chan value]bool        // channels made by time.After: fire when a select would block
 	ps         *pathState                 // the path being executed
 	w          *Worker                    // owning worker
 	pkgInit    map[*ssa.Package]int       // 0 not started, 1 running, 2 done, 3 failed
@@ -443,8 +444,26 @@ func visitInstr(fr *frame, instr ssa.Instruction) continuation {
 			cases = append(cases, reflect.SelectCase{Dir: reflect.SelectDefault})
 		}
 		chosen, recv, recvOk := reflect.Select(cases)
+		for instr.Blocking && chosen == len(cases)-1 && fr.i.runLateGo() {
+			// nothing was ready: a goroutine spawned earlier has now run
+			// (harness flag "latego"); look again
+			chosen, recv, recvOk = reflect.Select(cases)
+		}
 		if instr.Blocking && chosen == len(cases)-1 {
-			unsupported("select would block: no other goroutine runs under the engine")
+			// nothing is ready: a timer among the cases fires now
+			fired := false
+			for k, st := range instr.States {
+				if st.Dir != types.RecvOnly {
+					continue
+				}
+				if c, ok := fr.get(st.Chan).(chan value); ok && fr.i.timers[c] {
+					chosen, recv, recvOk, fired = k, reflect.ValueOf(zero(st.Chan.Type().Underlying().(*types.Chan).Elem())), true, true
+					break
+				}
+			}
+			if !fired {
+				unsupported("select would block: no other goroutine runs under the engine")
+			}
 		}
 		if !instr.Blocking {
 			chosen-- // default case should have index -1.
